@@ -314,7 +314,53 @@ func runC11(c *Ctx, r *Rec) {
 	// ---- D4 conversions
 	checkConversionErrors(c, r, info, pms)
 
+	// ---- D4b conversion widths: literals are evaluated at full width
+	widths := map[string]string{"ParseInt": "10,64", "ParseUint": "16,64", "ParseFloat": "64", "ParseComplex": "128", "ParseBool": ""}
+	for _, name := range sortedKeys(pms) {
+		fd := pms[name]
+		seq := 0
+		ast.Inspect(fd.Body, func(x ast.Node) bool {
+			call, ok := x.(*ast.CallExpr)
+			if !ok {
+				return true
+			}
+			fn := calleeOf(info, call)
+			if fn == nil || fn.Pkg() == nil || fn.Pkg().Path() != "strconv" {
+				return true
+			}
+			want, known := widths[fn.Name()]
+			if !known {
+				return true
+			}
+			seq++
+			var args []string
+			for _, a := range call.Args[1:] {
+				if tv := info.Types[a]; tv.Value != nil {
+					args = append(args, tv.Value.ExactString())
+				} else {
+					args = append(args, "?")
+				}
+			}
+			got := strings.Join(args, ",")
+			r.check(got == want, "D4-conversion-width", fmt.Sprintf("%s/%s#%d", c.fdName(fd), fn.Name(), seq), c.pos(call.Pos()), "strconv."+fn.Name()+"(text, "+want+")",
+				fmt.Sprintf("strconv.%s is called with (%s), the literal's exact value requires (%s): a narrower width silently rounds or rejects representable literals ((0.1+0.2i) becomes (0.10000000149011612+0.20000000298023224i))", fn.Name(), got, want))
+			return true
+		})
+	}
+	r.floor("D4-conversion-width", 5)
+
 	// ---- D5 separation
+	goStmts := ""
+	for _, name := range sortedKeys(pms) {
+		ast.Inspect(pms[name].Body, func(x ast.Node) bool {
+			if g, ok := x.(*ast.GoStmt); ok {
+				goStmts = fmt.Sprintf("%s starts a goroutine at %s", c.fdName(pms[name]), c.pos(g.Pos()))
+			}
+			return true
+		})
+	}
+	r.check(goStmts == "", "D5-scheduling-independence", "cdcn.parser/goroutines", c.pos(parser.Obj().Pos()), "the parser itself starts no goroutine (the only concurrent party is the scanner started by its class)",
+		goStmts+": it runs on after ParseSource has returned and shares the parser's fields (a later parse on the same parser is disturbed, depending on the schedule)")
 	scanFields := map[*types.Var]bool{}
 	if sst := structOf(st.scanner); sst != nil {
 		for i := 0; i < sst.NumFields(); i++ {
